@@ -92,7 +92,7 @@ EXC_KINDS = ["ValueError", "KeyError", "RuntimeError", "OSError", "TimeoutError"
              "Weird", "UnicodeDecodeError", "ResponseWrappingError", "LibraryShutdown", "NetworkError",
              "UnparsableMessage", "NotObservable"]
 NONMSG_KINDS = ["None", "str", "int", "bytes", "dict", "list", "tuple", "float", "object", "type"]
-RFAIL_KINDS = ["raises", "none", "badmsg", "raises_direct", "str", "tuple", "nocode", "reqcode", "badrepr"]
+RFAIL_KINDS = ["raises", "none", "badmsg", "raises_direct", "str", "tuple", "nocode", "reqcode", "badrepr", "unenc"]
 
 
 def _nonmsg(kind, k, aiocoap):
@@ -142,6 +142,13 @@ def _rfail(kind, k, aiocoap):
                 return aiocoap.Message(code=aiocoap.GET, payload=text.encode())
 
         raise CodelessRenderer(text)
+    if kind == "unenc":
+        # the rendering is a response message all right, but one that cannot be serialised
+        class UnencodableRenderer(E.RenderableError):
+            def to_message(self):
+                return aiocoap.Message(code=aiocoap.Code(128), payload=text)        # str, not bytes
+
+        raise UnencodableRenderer(text)
     if kind == "badrepr":
         # the conversion of the error (which starts with logging its repr) fails before to_message
         class BadRepr(E.BadRequest):
@@ -296,6 +303,11 @@ class Run:
                 # a message that only fails when it is serialised: str payload, or an option value out of range
                 if h["how"] == "payload":
                     return aiocoap.Message(code=aiocoap.Code(69), payload=secret(h["k"]))
+                if h["how"] == "uncopyable":
+                    # serialises, but cannot be deep-copied (the message layer keeps a copy for duplicates)
+                    m = aiocoap.Message(code=aiocoap.Code(69), payload=b"ok")
+                    m.opt.etag = memoryview(b"abcd")
+                    return m
                 return aiocoap.Message(code=aiocoap.Code(69), payload=b"x", max_age=-5)
             if o == "cancel":
                 raise asyncio.CancelledError()
@@ -417,9 +429,11 @@ class Run:
                         req = getattr(message, "request", None)
                         rid = self.id_of_key.get((message.token, req.remote)) if req is not None else None
                         nr = message.opt.no_response
+                        pl = message.payload          # may be anything an application put there
                         self.note("S%s:%s:%d:%s:%s:1" % (
                             rid, message.token.hex() or "-", int(message.code),
-                            message.payload.hex() or "-", "-" if nr is None else nr))
+                            (pl.hex() or "-") if isinstance(pl, (bytes, bytearray)) else "unserialisable",
+                            "-" if nr is None else nr))
                     r = orig_send(message, monitor)
                     if rid is not None and message.mid is not None:
                         for i in range(8):
